@@ -38,6 +38,9 @@ def run_schc(rep, pid):
             case_compress(b, lib_pdesc(k['pdesc']), lib_rule(k['rule']), d, klass='corpus:compress')
         elif k['op'] == 'decompress':
             case_decompress(b, k['schc'], lib_rule(k['rule']), d, klass='corpus:decompress', expect=k.get('expect'), side=L if k.get('side') == 'L' else R)
+        elif k['op'] == 'matchschc':
+            from p_c11 import one
+            one(b, k['ids'], k['schc'], L if k.get('side') == 'L' else R, 'corpus:matchschc')
         elif k['op'] == 'match':
             case_match(b, lib_pdesc(k['pdesc']), [lib_rule(r) for r in k['rules']], klass='corpus:match')
     n = b.run()
